@@ -68,6 +68,7 @@ where
     out.stat(&format!("history-{}-{}", O::kind(), if v { "valid" } else { "invalid" }));
     if v != all_ok { out.v("history-vs-steps", &format!("is_valid_history={} but stepwise={} on {} {}", v, all_ok, init.obj_sx(), lsx)); }
     out.stat(&format!("history-len-{}", n));
+    if out.cases < 45 { out.sample(&format!("object: {} {} => is_valid_history={}", init.obj_sx(), lsx, v)); }
     out.distinct(&(2u8, init.obj_sx(), lsx));
 }
 
@@ -348,6 +349,7 @@ where
         } else if !valid {
             out.stat("misbehaving-server-history-became-invalid");
         }
+        if path.len() == 6 && visited % 7 == 0 { out.sample(&format!("system: {} path={} => clients={} history={:?}", head, srh::sx::list(path.clone()), clients, s.history)); }
         out.stat(&format!("state-depth-{}", path.len().min(12)));
         out.stat(&format!("log-len-{}", log.len().min(12)));
         out.distinct(&(3u8, head.clone(), path.clone()));
@@ -468,6 +470,7 @@ fn system(out: &mut Out, r: &mut Rng, max_states: usize) {
 fn main() {
     quiet_panics();
     let mut out = Out::new();
+    out.max_samples = 12;
     let mut r = Rng::new(seed());
     let th = thorough();
     let nseq = arg_u64("--n", if th { 300_000 } else { 30_000 });
